@@ -124,6 +124,15 @@ Theorem C01_code_wf : forall f u v s s', wf s -> g_unify f u v s = Ret (s', true
 Proof. exact code_unify_wf. Qed.
 Print Assumptions C01_code_wf.
 
+(* the goal: EqualO (micro/goal.go) as translated, a function of its two terms and the state - no state when no unifier
+   exists, otherwise exactly one state, whose substitution is the most general unifier and whose counter is unchanged *)
+Theorem C01_code_goal : forall f u v st r, g_EqualO f u v st = Ret r ->
+  (r = Stream.SNil /\ ~ exists rr, sat rr (sub st) /\ inst rr u = inst rr v) \/
+  (exists s', r = Stream.SCons (mkSt s' (ctr st)) Stream.SNil /\ (exists ext, s' = sub st ++ ext) /\
+              forall rr, sat rr s' <-> (sat rr (sub st) /\ inst rr u = inst rr v)).
+Proof. exact code_goal. Qed.
+Print Assumptions C01_code_goal.
+
 Example C01_code_nonvacuous :
   let s := [(1%N, TVar 2%N); (0%N, TPair (TVar 1%N) (TAtom (ASym 0%N)))] in
   g_unify 20 (TVar 0%N) (TPair (TAtom (AInt 5%Z)) (TVar 3%N)) s
